@@ -40,6 +40,7 @@ pub fn gen_medium_op(rng: &mut Rng) -> Op {
             };
             Op::new("med.bigexp").a(rng.below(100)).b(rng.below(2)).c(2 + rng.below(2)).form(rng.below(2)).n(exp).m(prec)
         }
+        8 => Op::new("med.tokens").a(slot(rng)).b(slot(rng)).dst(slot(rng)).c(pool).n(rng.next() as i64).m(rng.below(1 << 30) as i64),
         7 => Op::new("med.bytes").a(slot(rng)).dst(slot(rng)).c(rng.below(2)).form(rng.below(2)).m(fault.min(7)).lit(lit),
         _ => Op::new("med.text").a(slot(rng)).dst(slot(rng)).c(pool).m(fault.min(7)).lit(lit),
     }
@@ -87,7 +88,7 @@ impl StepHook for MediumHook {
         }
         if let Some(p) = p {
             match p.origin() {
-                "dashu" if op.name == "med.twin" && p.msg().contains("overflow") && p.file().ends_with("float/src/repr.rs") => {
+                "dashu" if p.msg().contains("overflow") && p.file().ends_with("float/src/repr.rs") => {
                     // extreme exponent in a well-formed float encoding: arithmetic overflow while normalising
                     self.pending_soft = Some(Violation {
                         class: "medium.dashu_panic.exponent_overflow".into(),
